@@ -12,8 +12,11 @@ CHECKS = {
             'runtime monitoring: real Arbiter/Watcher on a simulated kernel in virtual time; convergence, '
             'freshness and fixpoint oracles over the kernel ledger',
             'Random request/fault histories plus deaths injected at every kernel-call boundary of an '
-            'operation; after quiescence the kernel process table is compared with the numprocesses the '
-            'daemon reports within <=3 periodic checks, then three idle checks must leave the ledger untouched. '
+            'operation, transient spawn faults (n-th process creation fails, before_spawn refusing once) and '
+            'singleton reloadconfig cases; after quiescence the kernel process table is compared with the '
+            'numprocesses the daemon reports within <=3 periodic checks, completed restarts/reloads (completion '
+            'read from the reply or the event channel) must leave only fresh workers, then three idle checks '
+            'must leave the ledger untouched. '
             'Held-on-observed, not a proof: the quantifier over all histories is sampled.',
             'Trusts the simulated kernel (calibrated against real psutil/subprocess) and the hand-driven '
             'periodic check; on-demand, respawn=False and max_age>0 are outside the statement.'),
@@ -22,53 +25,62 @@ CHECKS = {
             'stop sequence on the simulated kernel; completion-instant oracle over the process table',
             'Every stop/restart/rm/quit/stop-all base history is replayed once per kernel-call boundary of its stop '
             'sequence with a worker death landing exactly there; at the instant the reply is written every table '
-            'member must be reaped, and a random tail must not spawn for the stopped watcher. Complete over the '
+            'member must be reaped, and a random tail (checks, deaths, incr/decr, set of every option class) must '
+            'not spawn for the stopped watcher; a third of the watchers carry refusing / failing stop, signal and '
+            'reap hooks. Complete over the '
             'boundaries of each sampled base history; base histories are sampled.',
             'Trusts the simulated kernel model (calibrated) and that deaths can only land at kernel-call '
-            'boundaries of the single-threaded daemon; a stop that never completes is left to C05.'),
-    'C03': ('SIM', 'exploration',
+            'boundaries of the single-threaded daemon; a stop that never completes is a violation here too.'),
+    'C03': ('SIM+LIVE', 'exploration',
             'runtime monitoring: per-pid signal episodes from the simulated kernel ledger in exact virtual time '
             'checked against timing rules R1-R5',
             'Grid over stop signals x graceful timeouts x reaction delays on both sides of (and exactly at) the '
-            'deadline x termination causes x stop_children trees; quick samples the grid, thorough enumerates it '
-            'with several variants per cell.',
+            'deadline x 16 termination causes (incl. a second termination inside the grace period of a kill '
+            'request, per-request overrides) x stop_children trees with a child vanishing at a kernel-call '
+            'boundary; quick samples the grid, thorough enumerates it with several variants per cell; plus real '
+            'circusd histories under strace judged by the same rules on the kernel time stamps.',
             'Virtual time is exact, so lateness is measured in polling steps; one polling step of slack is granted '
             'as the statement does; before_signal vetoes belong to C14.'),
-    'C04': ('SIM', 'fault_enumeration',
+    'C04': ('SIM+LIVE', 'fault_enumeration',
             'runtime monitoring: protocol snapshot (list/numprocesses/stats/status) vs simulated kernel process '
             'table at quiescent points, with deaths injected at every kernel-call boundary',
             'Random multi-watcher histories with hook outcomes and exec failures, plus per-boundary death sweeps of '
             'the last operation; at each quiescent point the reported processes must equal the live children, no '
-            'zombie, no transient status.',
+            'zombie, no transient status; plus real circusd histories with /proc as the process table.',
             'Agreement is only demanded at quiescent points (one periodic check after the last event); stalled '
             'histories are truncated and left to C05.'),
-    'C09': ('SIM', 'fault_enumeration',
+    'C09': ('SIM+LIVE', 'fault_enumeration',
             'runtime monitoring: online reconstruction of the live set from the recorded PUB-socket event ledger '
             'compared with the simulated kernel; deaths with every status placed at every kernel-call boundary',
             'An online checker consumes every published event; at quiescent points its believed-alive set must '
             'equal the kernel live set, every kernel spawn has exactly one spawn event, no pid is reaped twice, and '
-            'self/outside deaths carry the exact exit_code.',
-            'The SIM PUB socket records every message (no transport loss); exit_code is judged only for workers '
-            'the daemon had not signalled itself.'),
+            'self/outside deaths carry the exact exit_code; histories include signal hooks that veto, relayed '
+            'non-fatal signals (plain and recursive); plus real circusd histories with a real SUB socket.',
+            'The SIM PUB socket records every message (no transport loss); the exit_code clause is not judged for '
+            'a worker whose kill event was already published or that the daemon signalled at the instant of death.'),
     'C05': ('SIM', 'exploration',
             'runtime monitoring: loop monitor charging virtual time.sleep to the loop iteration it blocks, read-only '
             'probes injected at selector polls, reply-latency oracle against B(op)',
             'Random overlapping request histories (exclusive and non-exclusive) with stubborn/dying workers; every '
             'blocked iteration > 0.5 s or dead-lock is reported with the circus call site and a mechanism tag; probes '
             'at every other selector poll must be answered inside handle_message; waiting replies must arrive within '
-            'B(op). Three blocking-reap mechanisms are known findings (LIVE-confirmed).',
+            'B(op); watchers with captured output and helper children (real pipes that stay open while a holder '
+            'lives: a read on an empty held pipe is a stall).',
             'Virtual time: a wait that cannot end is decidable because nothing else can run; hooks never sleep here.'),
     'C10': ('SIM', 'exploration',
             'runtime monitoring: second request injected at every selector poll of the first; differential no-effect '
             'oracle, nesting counter on the synchronized entry points, wedge probe',
             'Every (A, B, poll) triple for 23 first requests (succeeding, raising synchronously, failing '
             'asynchronously) and 14 second requests, plus random chains; refusal, no-effect (snapshot and kernel '
-            'ledger equal to the run without B), single exclusive operation in flight, slot freed after every ending.',
+            'ledger equal to the run without B), single exclusive operation in flight (also: no entry accepted while '
+            'work started by an ended operation still runs), slot freed after every ending, incl. a reloadconfig '
+            'that found the [circus] section edited.',
             'Whether A is in flight is sampled when handle_message is entered for B; arbiter-wide restart is LIVE-only.'),
     'C11': ('SIM', 'exploration',
             'runtime monitoring: protocol snapshot + kernel ledger before/after every request answered with an error, '
             'requests generated by labelled corruption operators',
-            'Valid requests of every command corrupted in one or two fields in several daemon states; an error reply '
+            'Valid requests of every command, left intact or corrupted in one or two fields, in several daemon states '
+            '(incl. an operation in flight and one-shot signal-hook vetoes); an error reply '
             'must leave snapshot (watchers, options, statuses, pids, stats keys, hooks) and kernel ledger unchanged.',
             'Only synchronous error replies are judged; ok replies are not this property.'),
     'C14': ('SIM', 'fault_enumeration',
@@ -84,7 +96,8 @@ CHECKS = {
             'list/status/stats/numwatchers after every step; real config file for reloadconfig',
             'Random add/rm/start/stop/reloadconfig/status/list sequences over a name pool with case variants, empty '
             'and unusual names; every view must equal the reference, names unique ignoring case, other-case requests '
-            'reach the watcher, removed watchers vanish with their workers, add ok implies presence.',
+            'reach the watcher, removed watchers vanish with their workers, add ok implies presence; views are also '
+            'compared with each other in the middle of rm / stop operations and after add+start whose spawns fail.',
             'Glob characters in names are addressed with match=simple; config files never define case-colliding names.'),
     'C18': ('SIM', 'exploration',
             'runtime monitoring: kernel signal ledger (target pid, number) vs watcher membership and descendants at '
@@ -92,30 +105,38 @@ CHECKS = {
             'any real os.kill',
             'Random signal/kill requests addressing own/foreign/dead pids, children and grandchildren in '
             'active/stopped/stopping watchers; every designation of every signal name/number through signal, kill, '
-            'set, add and config; clear-invalid near misses must be refused without a signal.',
+            'set, add and config; clear-invalid near misses must be refused without a signal; kill requests are '
+            'judged for the complete addressed set (workers and, with stop_children, their children) while a child '
+            'vanishes mid-loop.',
             'Floats, booleans, signed/non-ASCII numeric strings, whitespace and out-of-range numbers are ambiguous '
             'and never decide.'),
     'C19': ('SIM', 'exploration',
             'runtime monitoring: kernel spawn ledger with exact virtual timestamps checked for non-interleaving, '
             'priority order and warmup pacing',
             'Random watcher sets with priority ties, numprocesses 0-3, warmups and autostart flags; daemon start, '
-            'start/restart of all, by glob and by regex; deaths injected during the sequence.',
-            'Virtual clock; no periodic check runs during a start sequence.'),
+            'start/restart of all, by glob and by regex; deaths injected during the sequence; starts that fail '
+            'half-way (hook refusing the n-th spawn, after_start false); restart/start requests fired at a '
+            'periodic check that is respawning the watcher.',
+            'Virtual clock; spawn cost is modelled by hooks that consume virtual time.'),
     'C12': ('SIM', 'exploration',
             'runtime monitoring: differential comparison of the reloaded daemon with a fresh simulated daemon started '
             'on the same file; pid continuity and kernel-activity oracles',
             'Chains of configuration versions produced by labelled edits (add/remove watcher, numprocesses incl. '
             'reverts, cmd/args, global and named env, option add/remove/modify, no-op rewrites); after every '
             'reloadconfig the protocol view must equal a fresh start, untouched watchers keep their pids, '
-            'numprocesses-only edits move only the difference, unchanged files cause no kernel activity.',
+            'numprocesses-only edits move only the difference (also when a worker was SIGKILLed just before the '
+            'request), unchanged files cause no kernel activity; stream options, mixed-case names and env values '
+            'with $VAR references are in the edit alphabet.',
             'What a file means is taken from get_config (C16 checks that against the documentation).'),
     'C13': ('REF+SIM', 'exploration',
             'runtime monitoring: Process.format_args vs an independent argv model on enumerated token sequences; '
             'arguments of the process-creation call captured by the simulated kernel over respawn histories',
             'Exhaustive over short token sequences (quotes, backslashes, dollars, both reference syntaxes in any '
             'case, unknown references) in three roles with shell on/off, random beyond; every spawn record of random '
-            'death/incr/decr/reload histories is compared with the model (argv, env, cwd) and live wids must be '
-            'distinct positive integers starting at 1.',
+            'death/incr/decr/kill/reload histories is compared with the model for the configuration in force when it '
+            'was made (run-time set of env/cmd/args/working_dir opens a new epoch; env=None means the daemon\'s '
+            'environment), live wids must be distinct positive integers starting at 1 after every step, and workers '
+            'of a daemon built from a generated file get the environment the reference reader computes.',
             'Unknown names come from a reserved pool; env names never collide ignoring case; the model splitter is '
             'cross-checked against shlex on every input.'),
     'C16': ('REF', 'exploration',
@@ -123,9 +144,9 @@ CHECKS = {
             'documentation, on generated ini files',
             'Generated files with watcher, env, env:PATTERN (wildcards, comma lists), socket and plugin sections in '
             'shuffled order, typed/boolean/signal/stream/rlimit/hook/free-form options and references in any option; '
-            'every option value and type, every environment and the Watcher attributes must agree; parsing twice '
-            'must be equal.',
-            'Ambiguous classes (case-colliding names, references inside env values, typed options referring to '
+            'every option value and type, every environment, the Watcher attributes and the per-watcher hook '
+            'ignore-failure flags must agree; parsing twice must be equal.',
+            'Ambiguous classes (case-colliding names, [env] values referring to other [env] variables, typed options referring to '
             'env:NAME-only variables, repeated identical headers) are not generated; the __name__ marker in the '
             'watcher dict is not an option and is not compared.'),
     'C20': ('REF', 'exploration',
@@ -133,7 +154,8 @@ CHECKS = {
             'write',
             'Exhaustive over max_bytes 1..8 x backup_count 1..3 x all write-size sequences (length 4 quick / 5 '
             'thorough, every prefix checked), random beyond with pre-existing files, gaps, time_format, multi-line '
-            'and non-ASCII payloads, close/reopen and no-rotation streams.',
+            'and non-ASCII payloads, newline placement under time_format, close/reopen, no-rotation streams, and '
+            'writes the operating system refuses (EFBIG for exactly one call).',
             'Size bound judged on ASCII payloads without time_format.'),
     'C06': ('SIM+REF', 'exploration',
             'runtime monitoring: reply ledger per frame handed to the real Controller.handle_message (count, envelope, '
@@ -141,20 +163,22 @@ CHECKS = {
             'ROUTER peer over real ZeroMQ',
             'Arbitrary bytes, every JSON shape, field-by-field corruption, every registered command with valid and '
             'type-confused properties and operations that fail after the immediate-reply path; client calls against '
-            'permutations of stale/foreign/id-less/duplicate/right replies and silence.',
+            'permutations of stale/foreign/id-less/duplicate/right replies and silence, with fresh mappings or one '
+            'message object reused by the caller.',
             'Multi-frame envelopes are not judged; AsyncCircusClient has no timeout of its own.'),
     'C07': ('LIVE', 'exploration',
             'runtime monitoring of a real circusd under strace: socket inodes from /proc/<pid>/fd of daemon and '
             'workers, bind() calls from the strace record, connect() probes',
             'Real daemon with managed inet/unix/so_reuseport sockets and probe workers that dump argv and '
-            'descriptors, over 6-10 worker generations driven by SIGKILL, restart, reload, incr, decr, reloadconfig.',
+            'descriptors, over 6-10 worker generations driven by SIGKILL, restart, reload, incr, decr, reloadconfig '
+            '(unchanged file / edited watcher section) and periods in which process creation fails.',
             'so_reuseport sockets are per-worker by design; wall clock only ever makes a case inconclusive.'),
     'C08': ('LIVE', 'exploration',
             'runtime monitoring of a real circusd under strace: exit status, /proc children (pid,starttime), '
             'filesystem and connect() after quit / SIGTERM / SIGINT / SIGQUIT at chosen points of its life',
-            'Quit request or termination signal when idle, during the paced start-up, during stop/restart with '
-            'stubborn workers, during a respawning periodic check; pid-file start-up cases (live other pid, dead, '
-            'empty, garbage, negative, zero).',
+            'Quit request or termination signal when idle, the moment the pid file appears, during the paced start-up, '
+            'during stop/restart with stubborn workers (short and 7 s grace), during a respawning periodic check; '
+            'pid-file start-up cases (live other pid, dead, empty, garbage, negative, zero, the daemon\'s own pid).',
             'A verdict of "never exits" needs corroboration (process still there, signal seen by strace) after a wait '
             '>= 10x the configured timeouts; libzmq ipc files are not demanded.'),
     'C17': ('LIVE', 'exploration',
@@ -163,7 +187,9 @@ CHECKS = {
             '/proc/self/fd growth',
             '1-6 concurrent writers with scripted chunk sizes (1 byte .. 70 000 bytes, around the 1024-byte read '
             'buffer) on both channels while a sibling watcher is restarted/reloaded/SIGKILLed for 25-120 generations; '
-            'one writer closes a pipe early.',
+            'one writer closes a pipe early, one ends with a burst of exactly two read buffers, three exit by themselves '
+            'while a helper child holds their pipes, the streams of one running writer are replaced; a heartbeat + '
+            'watchdog thread reports a blocked loop.',
             'Only workers that keep running are judged; the leak measure is the fd-count growth after generation 10.'),
 }
 
